@@ -61,6 +61,7 @@ Inductive op :=
 | OpToPackage (src : res).
 
 Record rcase := {
+  c_variant : variant;                   (* which behaviour the code under test shows on the harness' probes *)
   c_world : world;                       (* the project before *)
   c_op : op;
   c_layout_after : layout;               (* the tree after project.do(changes) *)
@@ -86,7 +87,7 @@ Definition layout_same (a b : layout) : bool := subset_res a b && subset_res b a
 Definition model_out (c : rcase) : outcome pymod :=
   match c_op c with
   | OpMove src dest =>
-      match move_module_text (c_world c) src dest (c_mod c) with
+      match move_module_text (c_variant c) (c_world c) src dest (c_mod c) with
       | Done m => Done (move_pymod_loc src dest m)
       | o => o
       end
@@ -124,7 +125,9 @@ Definition obj_after (c : rcase) (o : obj) : obj :=
 
 Definition in_domain (c : rcase) : bool :=
   match c_op c with
-  | OpMove src dest => move_domain (c_world c) src dest (c_mod c)
+  | OpMove src dest =>
+      move_domain (c_variant c) (c_world c) src dest (c_mod c)
+      || match dest with [] => root_domain (c_variant c) (c_world c) src (c_mod c) | _ => false end
   | OpRename src newn => rename_domain (c_world c) src newn (c_mod c)
   | OpToPackage src => to_package_domain (c_world c) src (c_mod c)
   end.
